@@ -26,7 +26,7 @@ NvOk(r) ==
     /\ (kw = "none" => LET u == Fin(r.under) IN              \* otherwise converts as the underlying type
                        IF u.k = "ok" THEN r.variant = "value" /\ SameVal(Dec(r.tv), u.v)
                        ELSE r.variant = "err" /\ f.k = "err" /\ f.code = u.code)
-    /\ (r.variant = "err" => f.k = "err")
+    /\ (r.variant = "err" => Rejected(f))
     /\ (r.variant # "err" => NvResolveOk(r.variant, Dec(r.tv), min, max, r.hasdef, Dec(r.def), f))
     /\ (f.k = "ok" => (~IsNan(f.v) /\ DCmp(min, f.v) <= 0 /\ DCmp(f.v, max) <= 0))   \* never leaves [min, max]
 
